@@ -33,13 +33,15 @@ def adv (s : MSrc) : Option MSrc := match s.rest with
   | _ => none
 
 theorem advance_eq (h : List MSrc) (s : MSrc) : advance h s = (adv s).toList ++ h := by
-  unfold advance adv
-  split
-  · simp
-  · rename_i h
-    split
-    · rename_i h'; exact absurd h' (by intro e; exact h _ _ _ e)
-    · simp
+  obtain ⟨i, rest⟩ := s
+  match rest with
+  | [] => rfl
+  | [_] => rfl
+  | _ :: _ :: _ => rfl
+
+@[simp] theorem adv_single (i : Nat) (e : Entry) : adv ⟨i, [e]⟩ = none := rfl
+@[simp] theorem adv_cons (i : Nat) (e e' : Entry) (r : List Entry) :
+    adv ⟨i, e :: e' :: r⟩ = some ⟨i, e' :: r⟩ := rfl
 
 theorem foldl_advance_perm (F : List MSrc) : ∀ h : List MSrc,
     (F.foldl advance h).Perm (F.filterMap adv ++ h) := by
@@ -137,7 +139,7 @@ theorem tag_filter_val (k : Bytes) (ss : List (List Entry)) : ∀ i : Nat,
       have := ih (i+1)
       simp only [headVals] at this ⊢
       by_cases hk : e.1 = k <;>
-        simp [List.filter_cons, hk, this]
+        simp [hk, this]
 
 theorem tag_dropHead_perm (k : Bytes) (ss : List (List Entry)) : ∀ i : Nat,
     (start.go i (ss.map (dropHead k))).Perm
@@ -153,10 +155,10 @@ theorem tag_dropHead_perm (k : Bytes) (ss : List (List Entry)) : ∀ i : Nat,
     | cons e r =>
       by_cases hk : e.1 = k
       · cases r with
-        | nil => simpa [dropHead, hk, List.filter_cons, adv] using ih'
+        | nil => simpa [dropHead, hk, List.filter_cons, List.filterMap_cons] using ih'
         | cons e' r' =>
           simp only [List.map_cons, dropHead, hk, if_true, tag_cons_cons, List.filter_cons,
-            key_mk, decide_true, ne_eq, not_true_eq_false, decide_false, List.filterMap_cons, adv,
+            key_mk, decide_true, ne_eq, not_true_eq_false, decide_false, List.filterMap_cons, adv_cons,
             Bool.false_eq_true, if_false, List.cons_append]
           exact List.Perm.cons _ ih'
       · simp only [List.map_cons, dropHead, hk, if_false, tag_cons_cons, List.filter_cons,
@@ -377,8 +379,6 @@ theorem collect_spec (mf : MergeFn) : ∀ (fuel : Nat) (ss : List (List Entry)) 
           simp only [mergeAll, callsSpec, hmf, Option.isSome_some, if_true, List.reverse_cons,
             List.append_assoc, List.singleton_append, Option.map_map, and_true]
           congr 1
-          funext x
-          simp
 
 theorem start_heap (sources : List (List Entry)) : (start sources).heap = start.go 0 sources := rfl
 
@@ -410,6 +410,36 @@ theorem callsSpec_total (mf' : Bytes → List Bytes → Bytes) (g : Groups) :
   induction g with
   | nil => rfl
   | cons a r ih => obtain ⟨k, vs⟩ := a; simp [callsSpec, ih]
+
+/-- With a merge function that never fails, `run` returns the grouped union. -/
+theorem run_total (mf' : Bytes → List Bytes → Bytes) (sources : List (List Entry))
+    (hasc : AllAsc sources) :
+    (run (fun k vs => some (mf' k vs)) sources).1 = some (Spec.mergeSpec mf' sources) := by
+  rw [(run_spec _ sources hasc).1]
+  exact mergeAll_total mf' _
+
+/-- In a strictly ascending entry list a key has exactly one value. -/
+theorem valsOf_of_mem_asc {s : List Entry} (ha : StrictAsc s) {k v : Bytes} (hm : (k, v) ∈ s) :
+    valsOf k s = [v] := by
+  induction s with
+  | nil => cases hm
+  | cons e r ih =>
+    have ha' := List.pairwise_cons.mp ha
+    rw [valsOf_cons]
+    rcases List.mem_cons.mp hm with h | h
+    · subst h
+      have : valsOf k r = [] := by
+        rw [valsOf_eq_nil]; intro x hx e
+        have := ha'.1 x hx
+        simp only at this
+        rw [e] at this; exact blt_irrefl _ this
+      simp [this]
+    · have hne : e.1 ≠ k := by
+        intro e'
+        have := ha'.1 _ h
+        simp only at this
+        rw [e'] at this; exact blt_irrefl _ this
+      simp [hne, ih ha'.2 h]
 
 theorem mergeAll_eq_none (mf : MergeFn) (g : Groups) :
     mergeAll mf g = none ↔ ∃ x ∈ g, mf x.1 x.2 = none := by
